@@ -23,6 +23,10 @@ fn hex(b: &[u8]) -> String {
     s
 }
 
+pub fn unhex_pub(s: &str) -> Vec<u8> {
+    unhex(s)
+}
+
 fn unhex(s: &str) -> Vec<u8> {
     if s == "-" || s.is_empty() {
         return vec![];
@@ -162,6 +166,7 @@ fn handle(line: &str) -> String {
         "helper" => cmd_helper(&parts[1..]),
         "api" => cmd_api(&parts[1..]),
         "xadd" => cmd_xadd(&kv(&parts[1..])),
+        "compile" => cmd_compile(&kv(&parts[1..])),
         "jitbytes" => cmd_jitbytes(&kv(&parts[1..])),
         _ => "UNKNOWN".to_string(),
     }
